@@ -383,7 +383,7 @@ def hostCall (m : M) (name : String) (args : List SVal) : Step :=
          | .nil => val1 (m.tset tid { m.tget tid with mt := none }) a0
          | .tbl mid => val1 (m.tset tid { m.tget tid with mt := some mid }) a0
          | _ => badArg
-     | _ => badArg)
+     | _ => unspec "setmetatable on a non-table (an error in 5.1; gopher-lua sets a per-type metatable)")
   | "getmetatable" =>
     (match m.metaOf a0 with
      | none => val1 m .nil
@@ -441,8 +441,13 @@ def hostCall (m : M) (name : String) (args : List SVal) : Step :=
   | "assert" =>
     if args.isEmpty then badArg
     else if a0.truthy then vals m args
-    else if args.length ≥ 2 then .inl { m with ctrl := .err a1 false }
-    else .inl { m with ctrl := .err (sv "assertion failed!") false }
+    else if a1.isNil then .inl { m with ctrl := .err (sv "assertion failed!") false }
+    else match a1 with
+      | .str _ => .inl { m with ctrl := .err a1 false }      -- luaL_optstring: the message must be a string
+      | .num f => (match numToStr? f with
+        | some h => .inl { m with ctrl := .err (.str h) false }
+        | none => unspec "tostring of a non-integral number")
+      | _ => badArg
   | "coroutine.create" =>
     (match a0 with
      | .fn _ | .host _ =>
